@@ -143,3 +143,41 @@ def expr_case(exprs, bound):
             rel.append(list(e))
     r["box_relations"] = rel
     return r
+
+
+# ------------------------------------------------------------------------------------------------
+# constructed-relation family: bases  sign_i * g**a_i * h**b_i  for multiplicatively independent,
+# positive real, non-torsion generators g, h; the exact lattice is the integer kernel of the exponent
+# rows (plus parity), whatever the size of the exponents
+# ------------------------------------------------------------------------------------------------
+
+GENERATORS = {          # name: (expression, inverse)
+    "sqrt2": ("sqrt(2)", "sqrt(2)/2"),
+    "1+sqrt2": ("1 + sqrt(2)", "sqrt(2) - 1"),
+    "phi": ("(1 + sqrt(5))/2", "(sqrt(5) - 1)/2"),
+    "2+sqrt3": ("2 + sqrt(3)", "2 - sqrt(3)"),
+    "sqrt3": ("sqrt(3)", "sqrt(3)/3"),
+    "sqrt5": ("sqrt(5)", "sqrt(5)/5"),
+    "2": ("2", "1/2"),
+    "3": ("3", "1/3"),
+    "5": ("5", "1/5"),
+}
+
+
+def _gpow(name, a):
+    import sympy
+    g, ginv = (sympy.sympify(x) for x in GENERATORS[name])
+    return sympy.expand(g ** a) if a >= 0 else sympy.expand(ginv ** (-a))
+
+
+def constructed_case(g, h, a, b, signs):
+    import sympy
+    bs = []
+    for i in range(len(a)):
+        v = _gpow(g, a[i])
+        if h is not None:
+            v = sympy.expand(v * _gpow(h, b[i]))
+        bs.append(sympy.expand(signs[i] * v))
+    r = _one(bs)
+    r["exprs"] = [str(x)[:120] for x in bs]
+    return r
